@@ -99,6 +99,16 @@ func VerifC15_HardenedEnv() {
 		anyExact := false
 		okExact := true
 		okFold := true
+		okFirst := true
+		for i := range out {
+			earlierFold := false
+			for j := 0; j < i; j++ {
+				earlierFold = vxOr(earlierFold, vxFoldHasPrefix(out[j], pre))
+			}
+			// a lookup that returns the FIRST case-insensitive match (Windows API semantics) must
+			// see the hardened value as well: no differently-cased earlier entry may shadow it
+			okFirst = vxAnd(okFirst, vxImplies(vxAnd(vxFoldHasPrefix(out[i], pre), !earlierFold), vxStrEq(vxTail(out[i], len(pre)), g.V)))
+		}
 		for i := range out {
 			laterExact := false
 			laterFold := false
@@ -117,6 +127,7 @@ func VerifC15_HardenedEnv() {
 		vxAssert("defined:"+g.K, anyExact)
 		vxAssert("effective-exact:"+g.K, okExact)
 		vxAssert("effective-fold:"+g.K, okFold)
+		vxAssert("effective-first-match:"+g.K, okFirst)
 	}
 
 	// pass-through: every unrelated input entry is present, unchanged, in the output
